@@ -25,7 +25,8 @@ pub fn max_bit(m: u8) -> usize { if m & 2 != 0 { 1 } else { 0 } }
 
 /// What C08/C09 prescribe for the next call at oracle position `pos`:
 /// Ok(Some((start, idx, end))) token | Ok(None) end of input | Err((loc, zero_len)) InvalidToken at loc
-pub fn expected(a: &Automaton, tb: &[u8], mut p: usize, skip: [bool; 2]) -> Result<Option<(usize, usize, usize)>, (usize, bool)> {
+pub fn expected(a: &Automaton, text: &str, mut p: usize, skip: [bool; 2]) -> Result<Option<(usize, usize, usize)>, (usize, bool)> {
+    let tb = text.as_bytes();
     let mut guard = 0;
     while p < tb.len() && guard < 4 {
         guard += 1;
@@ -34,6 +35,9 @@ pub fn expected(a: &Automaton, tb: &[u8], mut p: usize, skip: [bool; 2]) -> Resu
             Some((l, mask)) => {
                 let idx = max_bit(mask);
                 if l == 0 { return Err((p, true)); }
+                // a match that ends inside a multi-byte character (possible only without the `unicode` feature) cannot be
+                // returned as a `&str` token: nothing representable matches here
+                if !text.is_char_boundary(p + l) { return Err((p, false)); }
                 if skip[idx] { p += l; continue; }
                 return Ok(Some((p, idx, p + l)));
             }
@@ -52,7 +56,7 @@ pub fn tokenize_and_check(text: &'static str, skip: [bool; 2], max_calls: usize)
     let mut calls = 0usize;
     while calls < max_calls {
         calls += 1;
-        let expect = expected(&a, tb, pos, skip);
+        let expect = expected(&a, text, pos, skip);
         match m.next() {
             None => {
                 assert!(matches!(expect, Ok(None)), "C09 lexer ended the token stream although unskipped input remains");
@@ -123,6 +127,21 @@ mod proofs {
         let t: usize = kani::any();
         kani::assume(t >= 7 && t < 15);
         tokenize_and_check(TEXTS[t], [kani::any(), kani::any()], 1);
+    }
+    /// non-ASCII input.  This crate links lalrpop-util WITHOUT the `unicode` feature, where the assumed DFA contract
+    /// allows a match to end at any byte offset (the shim's automaton works on byte classes).
+    /// `core::str::slice_error_fail` only formats the panic message of an out-of-boundary slice; it is stubbed by a
+    /// plain panic because message formatting dominates CBMC's cost.
+    fn slice_fail_stub(_s: &str, _begin: usize, _end: usize) -> ! {
+        panic!("C08 lexer slices the input text at a byte offset that is not a character boundary (str slice panic)")
+    }
+    #[kani::proof]
+    #[kani::unwind(6)]
+    #[kani::stub(core::str::slice_error_fail, slice_fail_stub)]
+    fn lexer_first_token_nonascii() {
+        let t: usize = kani::any();
+        kani::assume(t < 3);
+        tokenize_and_check(["\u{e9}", "a\u{e9}", "\u{e9}a"][t], [kani::any(), kani::any()], 1);
     }
     // @PLAYBACK@
 }
